@@ -60,6 +60,8 @@ def detach_compact_content(value: str) -> str:
 def decode_header(header_segment: bytes) -> t.Dict[str, t.Any]:
     try:
         protected: t.Dict[str, t.Any] = json_b64decode(header_segment)
+        if not isinstance(protected, dict):
+            raise ValueError("Invalid header")
         if "alg" not in protected:
             raise MissingAlgorithmError()
     except (TypeError, ValueError):
